@@ -1,6 +1,7 @@
 (* C01: LapTimer files survive encode -> decode -> encode unchanged. *)
-From Coq Require Import String Ascii List ZArith NArith Bool.
-From TT Require Import Base.Outcome Base.Str Base.F64 Xml.Print Xml.Lex Laptimer.Leaves Laptimer.Value Laptimer.Codec Proofs.Xml_proofs.
+From Coq Require Import String Ascii List ZArith NArith Bool Lia.
+From TT Require Import Base.Civil.
+From TT Require Import Base.Outcome Base.Str Base.F64 Xml.Print Xml.Lex Laptimer.Leaves Laptimer.Value Laptimer.Codec Proofs.Xml_proofs Proofs.Leaf_proofs.
 Import ListNotations.
 Local Open Scope Z_scope.
 
@@ -47,3 +48,34 @@ Example C01_leaf_roundtrips :
   = [ Ok (LvDur 123450000000); Ok (LvLapDate 1654041598000000000); Ok (LvFixDate 1654041598250000000);
       Ok (LvF 1 (f_of_ratio 123 10)); Ok (LvSync 2000000000) ].
 Proof. vm_compute. reflexivity. Qed.
+
+(* ---- leaves with a lossy printed form: decode (encode v) is v at the format's precision ---- *)
+(* durations MM:SS.cc - every non-negative duration below 2^62 ns comes back floored to 1/100 s *)
+Theorem C01_duration_roundtrip :
+  forall d, 0 <= d < 2 ^ 62 -> quant_leaf (LvDur d) = Ok (LvDur (d / 10000000 * 10000000)).
+Proof. intros d H. cbn [quant_leaf]. rewrite duration_roundtrip by exact H. reflexivity. Qed.
+Print Assumptions C01_duration_roundtrip.
+
+(* dates DD-MON-YY,HH:MM:SS[.cc] - every instant from 1969-01-01 to 2068-12-31 (the window a
+   two-digit year can name) comes back floored to the second, or to 1/100 s for fix dates *)
+Theorem C01_date_roundtrip :
+  forall t, first_day * ns_per_day <= t < (first_day + Z.of_nat n_days) * ns_per_day ->
+    quant_leaf (LvLapDate t) = Ok (LvLapDate (t / 1000000000 * 1000000000)) /\
+    quant_leaf (LvFixDate t) = Ok (LvFixDate (t / 10000000 * 10000000)).
+Proof.
+  intros t H. cbn [quant_leaf]. rewrite (date_roundtrip false t H), (date_roundtrip true t H). split; reflexivity.
+Qed.
+Print Assumptions C01_date_roundtrip.
+
+(* ... and a value already at the format's precision is a fixed point, so a second round trip
+   changes nothing *)
+Theorem C01_duration_idempotent :
+  forall d, 0 <= d < 2 ^ 62 ->
+    quant_leaf (LvDur (d / 10000000 * 10000000)) = Ok (LvDur (d / 10000000 * 10000000)).
+Proof.
+  intros d H. rewrite C01_duration_roundtrip.
+  - rewrite Z.div_mul by discriminate. reflexivity.
+  - split; [apply Z.mul_nonneg_nonneg; [apply Z.div_pos|]; lia|].
+    pose proof (Z.mul_div_le d 10000000 ltac:(lia)). lia.
+Qed.
+Print Assumptions C01_duration_idempotent.
